@@ -337,8 +337,8 @@ func checkC05(c c05Cell) error {
 					if j := findEntry(pre, want[i].ID); j >= 0 && pre[j].Body == post[i].Body {
 						return fmt.Errorf("file %q: entry %q reported as updated but its body did not change", p, want[i].ID)
 					}
-					if c.API == "snap" && post[i].Body != c.Val {
-						return fmt.Errorf("file %q: entry %q holds %q, want %q", p, want[i].ID, post[i].Body, c.Val)
+					if c.API == "snap" && post[i].Body != escapeRuleLines(c.Val) {
+						return fmt.Errorf("file %q: entry %q holds %q, want %q", p, want[i].ID, post[i].Body, escapeRuleLines(c.Val))
 					}
 					continue
 				}
@@ -385,6 +385,17 @@ func checkC05(c c05Cell) error {
 	}
 	_ = res
 	return nil
+}
+
+// escapeRuleLines: a whole line `---` of a value is stored as `/-/-/-/` in a multi-entry file (README).
+func escapeRuleLines(v string) string {
+	ls := strings.Split(v, "\n")
+	for i, l := range ls {
+		if l == "---" {
+			ls[i] = "/-/-/-/"
+		}
+	}
+	return strings.Join(ls, "\n")
 }
 
 func ids(es []Entry) []string {
